@@ -240,7 +240,7 @@ structure FitInv (e : Env) (σ : St) (tasks placed : List Nat) : Prop where
   inrange : ∀ t ∈ tasks, t < σ.ts.size
   pending : ∀ t ∈ tasks, t ∉ placed ∧ (σ.tst t).scheduled = false ∧ (σ.tst t).done = false ∧
     (∀ r i, usageOf (σ.led.get r i).usage t = none) ∧ (EffLeaf e t → (σ.tst t).start = (e.taskD t).start)
-  deps : ∀ t r, EligU e t r → (σ.tst t).done = true → (σ.tst t).forward = true →
+  deps : ∀ t, (e.taskD t).leaf = true → (σ.tst t).done = true → (σ.tst t).forward = true →
     ∀ dp ∈ (e.taskD t).allDeps, (σ.tst dp.target).scheduled = true
   ok : DoneFit e σ placed
 
@@ -356,16 +356,16 @@ theorem fitInv_step (e : Env) (wf : WF e) (σ : St) (tasks placed : List Nat) (t
     · rw [updateContainers_led, scheduleTask_same e σ t0 t (Ne.symm hne) r i]
       exact h3 r i
   · -- predecessors of completed tasks are scheduled
-    intro t r hel hd hfw dp hdp
+    intro t hlft hd hfw dp hdp
     by_cases heq : t = t0
     · subst heq
-      rw [updateContainers_leaf e _ t hel.el.leaf] at hfw
+      rw [updateContainers_leaf e _ t hlft] at hfw
       rw [scheduleTask_self_forward] at hfw
       have hxs := ready_forward_deps e σ t hfw hready dp hdp
       rw [hsame dp.target (fun hx => by rw [hx, hus0] at hxs; exact Bool.noConfusion hxs) (Or.inr hxs)]
       exact hxs
-    · rw [hsame t heq (Or.inl hel.el.leaf)] at hd hfw
-      have hxs := h.deps t r hel hd hfw dp hdp
+    · rw [hsame t heq (Or.inl hlft)] at hd hfw
+      have hxs := h.deps t hlft hd hfw dp hdp
       rw [hsame dp.target (fun hx => by rw [hx, hus0] at hxs; exact Bool.noConfusion hxs) (Or.inr hxs)]
       exact hxs
   · intro t r hel hd hfw
@@ -399,7 +399,7 @@ theorem fitInv_step (e : Env) (wf : WF e) (σ : St) (tasks placed : List Nat) (t
     · have htsame := hsame t heq (Or.inl hel.el.leaf)
       rw [htsame] at hd hfw
       obtain ⟨post, pre, hsplit, hfit⟩ := h.ok t r hel hd hfw
-      have hdeps := h.deps t r hel hd hfw
+      have hdeps := h.deps t hel.el.leaf hd hfw
       have htgt : ∀ dp ∈ (e.taskD t).allDeps, (updateContainers e (scheduleTask e σ t0).1).tst dp.target = σ.tst dp.target := by
         intro dp hdp
         have hxs := hdeps dp hdp
@@ -448,29 +448,34 @@ theorem pickLoop_placement (e : Env) (wf : WF e) (fuel : Nat) (tasks failed plac
         · exact ⟨placed, tasks, h.placement⟩
         · exact ⟨placed, tasks, h.placement⟩
 
+/-- the invariant holds when the loop starts -/
+theorem fitInv_init (e : Env) (wf : WF e) (σ : St) (hinv : Inv e σ) (hs : Solid e σ) (hd : DoneFalse σ)
+    (hsz : σ.ts.size = e.tasks.size) (hempty : ∀ r i, (σ.led.get r i).usage = []) (hst : StartAttr e σ) :
+    FitInv e (preLoop e σ) (todoOf e (preLoop e σ)) [] := by
+  refine ⟨todo_sorted e _, fun t ht => absurd ht List.not_mem_nil, ?_,
+    preLoop_inv e σ hinv, closed_preLoop (solid_closed e wf) σ hs, ?_, todoOf_nodup e _, todoOf_leaf e _, ?_, ?_, ?_, ?_⟩
+  · intro post pre t0 hsplit
+    cases post <;> cases hsplit
+  · intro r i x hx
+    rw [preLoop_led, hempty r i] at hx; cases hx
+  · intro t ht; rw [preLoop_size, hsz]; exact (todoOf_mem e _ t ht).1
+  · intro t ht
+    refine ⟨List.not_mem_nil, (todoOf_mem e _ t ht).2, preLoop_doneFalse e σ hd t, fun r i => ?_,
+      fun hel => preLoop_startAttr e σ hst t hel⟩
+    rw [preLoop_led, hempty r i]; rfl
+  · intro t _ hdone
+    rw [preLoop_doneFalse e σ hd t] at hdone
+    exact Bool.noConfusion hdone
+  · intro t r _ hdone
+    rw [preLoop_doneFalse e σ hd t] at hdone
+    exact Bool.noConfusion hdone
+
 theorem scheduleScenario_placement (e : Env) (wf : WF e) (σ : St) (hinv : Inv e σ) (hs : Solid e σ) (hd : DoneFalse σ)
     (hsz : σ.ts.size = e.tasks.size) (hempty : ∀ r i, (σ.led.get r i).usage = []) (hst : StartAttr e σ) :
     ∃ placed rest, Placement e (scheduleScenario e σ) placed rest := by
   unfold scheduleScenario
   simp only []
-  have h2 : FitInv e (preLoop e σ) (todoOf e (preLoop e σ)) [] := by
-    refine ⟨todo_sorted e _, fun t ht => absurd ht List.not_mem_nil, ?_,
-      preLoop_inv e σ hinv, closed_preLoop (solid_closed e wf) σ hs, ?_, todoOf_nodup e _, todoOf_leaf e _, ?_, ?_, ?_, ?_⟩
-    · intro post pre t0 hsplit
-      cases post <;> cases hsplit
-    · intro r i x hx
-      rw [preLoop_led, hempty r i] at hx; cases hx
-    · intro t ht; rw [preLoop_size, hsz]; exact (todoOf_mem e _ t ht).1
-    · intro t ht
-      refine ⟨List.not_mem_nil, (todoOf_mem e _ t ht).2, preLoop_doneFalse e σ hd t, fun r i => ?_,
-        fun hel => preLoop_startAttr e σ hst t hel⟩
-      rw [preLoop_led, hempty r i]; rfl
-    · intro t r _ hdone
-      rw [preLoop_doneFalse e σ hd t] at hdone
-      exact Bool.noConfusion hdone
-    · intro t r _ hdone
-      rw [preLoop_doneFalse e σ hd t] at hdone
-      exact Bool.noConfusion hdone
+  have h2 := fitInv_init e wf σ hinv hs hd hsz hempty hst
   obtain ⟨placed, rest, h3⟩ := pickLoop_placement e wf ((todoOf e (preLoop e σ)).length + 1) (todoOf e (preLoop e σ)) [] [] (preLoop e σ) h2
   refine ⟨placed, rest, ?_⟩
   split
